@@ -1745,7 +1745,7 @@ fn chain_scenario(run: &Run, sc: &Scratch, scen: u64) {
 			return;
 		}
 	};
-	let after_open = match cx.stage_check(&chain, &ftip, "reopen1", true) {
+	let after_open = match cx.stage_check(&chain, &ftip, "reopen1", false) {
 		Some(s) => s,
 		None => return,
 	};
@@ -1797,7 +1797,7 @@ fn chain_scenario(run: &Run, sc: &Scratch, scen: u64) {
 		cx.violation("reorg2", "no_reorg", "second fork with more total difficulty did not become the head".into());
 		return;
 	}
-	if cx.stage_check(&chain, &gtip, "reorg2", true).is_none() {
+	if cx.stage_check(&chain, &gtip, "reorg2", false).is_none() {
 		return;
 	}
 	run.count("chain_reorgs_after_compaction_ok", 1);
@@ -1893,38 +1893,45 @@ fn main() {
 		run.finish();
 	}
 
+	// ---------------- worker process: one chain scenario
+	if let Some((i, _n)) = run.worker_shard() {
+		let t0 = std::time::Instant::now();
+		if let Err(p) = catch(|| chain_scenario(&run, &sc, i as u64)) {
+			run.violation(
+				&format!("level=chain;stage=harness;event=panic@{}", p.location),
+				&p.message,
+				json!({"level": "chain", "scenario": i}),
+			);
+		}
+		run.count("chain_scenario_wall_s_total", t0.elapsed().as_secs());
+		drop(sc);
+		run.finish_worker();
+	}
+
 	// ---------------- budgets
-	let n_programs: u64 = if is_san { 40 } else { run.tier.pick(400, 20_000) };
+	let n_programs: u64 = if is_san { 40 } else { run.tier.pick(560, 30_000) };
 	let time_budget_s: f64 = if is_san { 3000.0 } else { run.tier.pick(70.0, 600.0) };
-	let n_chain: u64 = if is_san { 0 } else { run.tier.pick(1, 8) };
+	// chain scenarios run in worker processes (block processing / validation take the
+	// process-global secp mutex, threads would serialise them)
+	let n_chain: usize = if is_san { 0 } else { run.tier.pick(1, 8) };
 	let n_threads: usize = if is_san { 4 } else { 16 };
 
 	let next = AtomicU64::new(0);
-	let total_items = n_chain + n_programs;
 	std::thread::scope(|s| {
+		if n_chain > 0 {
+			s.spawn(|| {
+				run.spawn_workers(n_chain, &[], run.tier.pick(150, 690));
+			});
+		}
 		for _ in 0..n_threads {
 			s.spawn(|| {
 				init_thread(false);
 				loop {
 					let i = next.fetch_add(1, Ordering::SeqCst);
-					if i >= total_items {
+					if i >= n_programs || run.elapsed_s() > time_budget_s {
 						break;
 					}
-					if i < n_chain {
-						// chain scenarios first: they are the longest items
-						if let Err(p) = catch(|| chain_scenario(&run, &sc, i)) {
-							run.violation(
-								&format!("level=chain;stage=harness;event=panic@{}", p.location),
-								&p.message,
-								json!({"level": "chain", "scenario": i}),
-							);
-						}
-						continue;
-					}
-					if run.elapsed_s() > time_budget_s {
-						break;
-					}
-					let cfg = prog_cfg(i - n_chain, is_san);
+					let cfg = prog_cfg(i, is_san);
 					run_store_program(&run, &sc, &cfg, &totals, false);
 				}
 			});
@@ -1986,6 +1993,7 @@ fn main() {
 		run.require(&format!("spend pattern {}", PATTERNS[i]), st.patterns[i], q(150, 750));
 	}
 	if !is_san {
+		let n_chain = n_chain as u64;
 		run.require("chain scenarios completed", run.counter("chain_scenarios_completed"), n_chain);
 		run.require(
 			"chain compactions that changed the MMR files",
